@@ -72,7 +72,7 @@ def alphabet(acts):
                 labs.append("AAddToGroup(%s,%s)" % (q(g), q(vn)))
     for s in ("v", "A_s", "i_A"):
         for vn in ("all", "b01", "mid", "last"):
-            if has("record"):
+            if has("record") or (has("record1") and s == "v" and vn == "all"):
                 labs.append("ARecord(%s,%s)" % (q(s), q(vn)))
     for vn in ("all", "b0", "c0"):
         if has("delrec"):
@@ -140,7 +140,8 @@ def main(which):
     rnd = random.Random(sd)
     # (configuration, depth of the replayed graph, number of deepest-level source states sampled [None = all])
     if which == "C19":
-        graphs = [("MC_Module.cfg", 2, None), ("MC_Chans.cfg", 3, 40 if quick else 600)]
+        graphs = [("MC_Module.cfg", 2, None), ("MC_Chans.cfg", 3, 40 if quick else 600),
+                  ("MC_Inputs.cfg", 3, None)]
     else:
         graphs = [("MC_Params.cfg", 3, 30 if quick else 800)]
     states = trans = 0
@@ -169,7 +170,7 @@ def main(which):
         trans += len(edges)
         taken = collections.Counter(l.split("(")[0] for _, _, l in edges)
         need = {"insert": ["AInsert"], "delete": ["ADeleteChannel"], "set": ["ASet"], "train": ["AMakeTrainable"],
-                "deltrain": ["ADeleteTrainables"], "write": ["AWriteTrainables"], "group": ["AAddToGroup"], "record": ["ARecord", "Integrate"],
+                "deltrain": ["ADeleteTrainables"], "write": ["AWriteTrainables"], "group": ["AAddToGroup"], "record": ["ARecord", "Integrate"], "record1": ["ARecord", "Integrate"],
                 "delrec": ["ADeleteRecordings"], "input": ["AStimulate", "AClamp"], "delinput": ["ADeleteStimuli", "ADeleteClamps"]}
         for cls, names in need.items():
             if '"%s"' % cls in acts:
